@@ -354,13 +354,25 @@ _TO_STRING = ("From::from", "Into::into", "ToOwned::to_owned", "ToString::to_str
               "str::to_string", "String::clone")
 
 
+_TEXT_TYPES = ("str", "char", "std::string::String", "alloc::string::String")
+_INT_TYPES = ("u8", "u16", "u32", "u64", "u128", "usize", "i8", "i16", "i32", "i64", "i128", "isize")
+
+
 def _is_string_conv(e, arg):
-    """the call converts a string (&str / String) into a String"""
+    """the call converts a piece of text (&str / String / char) into a String"""
     if peel_ty(e.get("ty", "")) not in ("std::string::String", "alloc::string::String"):
         return False
     at = peel_ty(strip(arg).get("ty", "") if isinstance(arg, dict) else "")
     at2 = peel_ty(arg.get("ty", "")) if isinstance(arg, dict) else ""
-    return at in ("str", "std::string::String", "alloc::string::String") or at2 in ("str", "std::string::String", "alloc::string::String")
+    return at in _TEXT_TYPES or at2 in _TEXT_TYPES
+
+
+def _is_int_widening(e, arg):
+    """`T::from(x)` / `x.into()` between integer types: the lossless conversion, i.e. `x as T`"""
+    if peel_ty(e.get("ty", "")) not in _INT_TYPES:
+        return False
+    at = peel_ty(strip(arg).get("ty", "") if isinstance(arg, dict) else "")
+    return at in _INT_TYPES
 
 
 def _string_builder(t):
@@ -382,8 +394,31 @@ def _string_builder(t):
     if not effs:
         return t
     guards = [tuple(e[-1]) for e in effs]
-    if any(guards) and (any(g != guards[0] for g in guards) or len(guards[0]) != 1 or guards[0][0][:3] != ("guard", "if", True)):
-        return t
+    common = bool(guards[0]) and all(g == guards[0] for g in guards) and len(guards[0]) == 1 and guards[0][0][:3] == ("guard", "if", True)
+    if any(guards) and not common:
+        # pieces pushed under their own `if`s: each is the piece or nothing
+        if any(g[:2] != ("guard", "if") for gs in guards for g in gs) or any(e[0] != "mutcall" or e[1] not in ("String::push", "String::push_str") for e in effs):
+            return t
+        for e in effs:
+            if len(e[3]) != 1 or e[2] != "":
+                return t
+            x = e[3][0]
+            piece = [("lit", x[1])] if x[0] == "lit" and isinstance(x[1], str) else list(x[1]) if x[0] == "fmt" else [("arg", "", x)]
+            if e[-1]:
+                c = None
+                for g in e[-1]:
+                    k = g[3] if g[2] else _not(g[3])
+                    c = k if c is None else ("op", "&&", [c, k])
+                val = ("lit", piece[0][1]) if len(piece) == 1 and piece[0][0] == "lit" else ("fmt", piece)
+                piece = [("arg", "", _mk_if(c, val, ("lit", "")))]
+            parts.extend(piece)
+        merged = []
+        for p_ in parts:
+            if p_[0] == "lit" and merged and merged[-1][0] == "lit":
+                merged[-1] = ("lit", merged[-1][1] + p_[1])
+            else:
+                merged.append(p_)
+        return ("fmt", merged)
     for e in effs:
         if not (e[0] == "mutcall" and e[1] in _STR_EDITS and e[2] == ""):
             return t
@@ -2340,6 +2375,8 @@ class Norm:
             args = [self._t(a) for a in e["args"]]
             if name in _TO_STRING and len(args) == 1 and _is_string_conv(e, e["args"][0]):
                 return args[0]       # &str / String -> String, however it is spelled, is the same text
+            if name in ("From::from", "Into::into") and len(args) == 1 and _is_int_widening(e, e["args"][0]):
+                return ("cast", peel_ty(e.get("ty", "")), args[0])
             if name == "FromIterator::from_iter" and len(args) == 1:
                 return ("call", "Iterator::collect", args)          # T::from_iter(it)  ==  it.collect::<T>()
             if name == "__private::must_use" and len(args) == 1:
@@ -2377,6 +2414,8 @@ class Norm:
             args = [self._t(a) for a in e["args"]]
             if name in _TO_STRING and not args and _is_string_conv(e, e["recv"]):
                 return recv
+            if name in ("From::from", "Into::into") and not args and _is_int_widening(e, e["recv"]):
+                return ("cast", peel_ty(e.get("ty", "")), recv)
             name = {"Vec::is_empty": "slice::is_empty", "Vec::len": "slice::len", "Vec::first": "slice::first", "Vec::last": "slice::last"}.get(name, name)
             if not args and name in ("slice::len", "slice::is_empty"):
                 # length-preserving adaptors: xs.iter().map(f).collect::<Vec<_>>() has as many elements as xs
